@@ -471,6 +471,7 @@ def _ios_base_ctor(this):
     n = min(216, o.size - off)
     rt.memset(this, 0, n)
     st(this + 8, 8, 6); st(this + 16, 8, 0); st(this + 24, 4, 0x1002)   # precision 6, width 0, skipws|dec
+    st(this + 192, 4, 8); st(this + 200, 8, this + 64)                   # _M_word_size, _M_word = _M_local_word
 @ext('_ZNSt8ios_base7_M_initEv')
 def _ios_base_init(this):
     st(this + 8, 8, 6); st(this + 16, 8, 0); st(this + 24, 4, 0x1002)
@@ -490,3 +491,80 @@ def _locale_assign(this, o): st(this, 8, ld(o, 8)); return this
 def _locale_classic():
     if 'classic' not in _what_vtables: _what_vtables['classic'] = rt.new_obj(8, 'global', 'locale::classic')
     return _what_vtables['classic']
+
+# ---- iostream facets: a faithful classic-"C" ctype<char> object, and number formatting through libc
+_facets = {}
+def _fake_ctype():
+    if 'ctype' in _facets: return _facets['ctype']
+    _libc.__ctype_b_loc.restype = ctypes.POINTER(ctypes.POINTER(ctypes.c_ushort))
+    tab = _libc.__ctype_b_loc()[0]
+    tb = rt.new_obj(2 * 384, 'global', 'ctype classic table')
+    for i in range(-128, 256): st(tb + 2 * (i + 128), 2, tab[i])
+    c = rt.new_obj(576, 'global', 'ctype<char> (classic, model)')
+    st(c + 48, 8, tb + 256)              # _M_table -> entry 0
+    st(c + 56, 1, 1)                      # _M_widen_ok
+    for i in range(256): st(c + 57 + i, 1, i); st(c + 313 + i, 1, i)
+    st(c + 569, 1, 1)                     # _M_narrow_ok
+    _facets['ctype'] = c
+    _facets['num'] = rt.new_obj(16, 'global', 'num_put/num_get facet (model)')
+    return c
+def _cache_locale(this, loc):
+    st(this + 240, 8, _fake_ctype()); st(this + 248, 8, _facets['num']); st(this + 256, 8, _facets['num'])
+rt.OVERRIDE['_ZNSt9basic_iosIcSt11char_traitsIcEE15_M_cache_localeERKSt6locale'] = _cache_locale
+EXT['_ZNSt9basic_iosIcSt11char_traitsIcEE15_M_cache_localeERKSt6locale'] = _cache_locale
+@ext('_ZNKSt5ctypeIcE13_M_widen_initEv')
+def _widen_init(this): st(this + 56, 1, 1)
+
+def _ios_of(os_):
+    vt = ld(os_, 8)
+    off = ld(vt - 24, 8)
+    return (os_ + off) & M64
+def _ostream_write(os_, data):
+    f = rt.MODULE[0].NAMES.get('_ZSt16__ostream_insertIcSt11char_traitsIcEERSt13basic_ostreamIT_T0_ES6_PKS3_l')
+    if f is None: f = EXT.get('_ZSt16__ostream_insertIcSt11char_traitsIcEERSt13basic_ostreamIT_T0_ES6_PKS3_l')
+    buf = rt.make_bytes(data, 'heap', 'formatted number')
+    try: f(os_, buf, len(data))
+    finally: rt.OBJ.pop(buf >> 32, None)
+    return os_
+def _fmt_flags(ios):
+    fl = ld(ios + 24, 4); prec = ld(ios + 8, 8)
+    if prec >> 63: prec -= 1 << 64
+    return fl, prec
+# fmtflags bits (libstdc++): boolalpha 1, dec 2, fixed 4, hex 8, internal 16, left 32, oct 64, right 128, scientific 256, showbase 512, showpoint 1024, showpos 2048, skipws 4096, unitbuf 8192, uppercase 16384
+def _insert_double(os_, v):
+    if rt.is_sym(v): raise Unmodeled('ostream << symbolic floating-point value')
+    fl, prec = _fmt_flags(_ios_of(os_))
+    spec = b'%'
+    if fl & 2048: spec += b'+'
+    if fl & 1024: spec += b'#'
+    ff = fl & (4 | 256)
+    up = fl & 16384
+    if ff == 4: conv = b'F' if up else b'f'
+    elif ff == 256: conv = b'E' if up else b'e'
+    elif ff == (4 | 256): conv = b'A' if up else b'a'
+    else: conv = b'G' if up else b'g'
+    if ff != (4 | 256): spec += b'.%d' % max(prec, 0)
+    spec += conv
+    return _ostream_write(os_, c_format(spec, [v]))
+def _insert_int(signed):
+    def m(os_, v):
+        if rt.is_sym(v): v = rt.concretize(v)
+        fl, prec = _fmt_flags(_ios_of(os_))
+        base = fl & (2 | 8 | 64)
+        if signed and v >> 63: v -= 1 << 64
+        if base == 8: s_ = ('%X' if fl & 16384 else '%x') % (v & M64); s_ = (('0X' if fl & 16384 else '0x') + s_) if (fl & 512 and v) else s_
+        elif base == 64: s_ = '%o' % (v & M64); s_ = ('0' + s_) if (fl & 512 and v) else s_
+        else:
+            s_ = '%d' % v
+            if fl & 2048 and signed and v >= 0: s_ = '+' + s_
+        return _ostream_write(os_, s_.encode())
+    return m
+def _insert_ptr(os_, v): return _ostream_write(os_, b'0x%x' % v if v else b'0')
+def _insert_bool(os_, v):
+    fl, prec = _fmt_flags(_ios_of(os_))
+    if rt.is_sym(v): v = rt.concretize(v)
+    if fl & 1: return _ostream_write(os_, b'true' if v else b'false')
+    return _ostream_write(os_, b'1' if v else b'0')
+for _n, _f in (('_ZNSo9_M_insertIdEERSoT_', _insert_double), ('_ZNSo9_M_insertIeEERSoT_', _insert_double), ('_ZNSo9_M_insertIlEERSoT_', _insert_int(True)), ('_ZNSo9_M_insertImEERSoT_', _insert_int(False)),
+               ('_ZNSo9_M_insertIxEERSoT_', _insert_int(True)), ('_ZNSo9_M_insertIyEERSoT_', _insert_int(False)), ('_ZNSo9_M_insertIPKvEERSoT_', _insert_ptr), ('_ZNSo9_M_insertIbEERSoT_', _insert_bool)):
+    rt.OVERRIDE[_n] = _f; EXT[_n] = _f
